@@ -338,6 +338,23 @@ def run(ctx):
         ctx.check(isinstance(v, ast.BinOp) and isinstance(v.op, ast.Add) and 'time.time()' in t and t.endswith('.dpd')
                   and 'configuration' in t, 'X5', 'DPD deadline = now + configured dpd in %s (`%s`)' % (fi.name, t),
                   key=('X5', 'dpd-value', fi.name), site=ctx.site(fi, n))
+    # "a message was received" means one the peer can be held to: once the IKE_SA has keys, the deadline moves only on a path where
+    # the message was parsed with those keys (anybody who saw the SPIs on the wire can send cleartext that keeps a dead peer 'alive')
+    from ..sval import NONE
+    pmf = ctx.func('ikesa.IkeSa.process_message')
+    PMS = ctx.sval(pmf)
+    dstores = [x for x in PMS.stores if strip_ids(x[0]) == ('attr', ('param', 'self'), 'start_dpd_at')]
+    ctx.floor('the DPD deadline refresh in process_message', len(dstores), 1, rule='X5')
+    parsed = [c for c in PMS.calls_to(qual='message.Message.parse')]
+    if parsed and dstores:
+        m_t = parsed[0].term
+        unprot = ('and', (tq.strip_ids(PMS.mk_cmp('is not', ('attr', ('param', 'self'), 'peer_crypto'), NONE)),
+                          tq.strip_ids(PMS.mk_cmp('is', ('attr', tq.strip_ids(m_t), 'crypto'), NONE))))
+        for x in dstores:
+            ctx.check(tq.entails(tq.strip_ids(x[2]), ('not', unprot)) is True, 'X5',
+                      'the DPD deadline is pushed back only by a message protected with the keys of the IKE_SA (not by cleartext '
+                      'once keys exist)', key=('X5', 'dpd-refresh-authentic'), site=ctx.site(pmf, x[3]),
+                      detail={'path condition': [('' if p else 'not ') + tq.text(t, 160) for t, p in x[2]]})
     dpd = ctx.func('ikesa.IkeSa.check_dead_peer_detection_timer')
     gd = esc.add_exception_edges(dpd)
     emit = [n for n, x in common.nodes_calling(ctx, dpd, gd, common.calls_named('generate_dead_peer_detection_request'))]
